@@ -54,4 +54,6 @@ props! {
     "X03" => x03,
     "X01" => x01,
     "X04" => x04,
+    "X06" => x06,
 }
+pub mod x06_probe;
